@@ -296,14 +296,15 @@ def classify(ret, provs):
             for g in p['groups']:
                 for t in g:
                     add(t, ('P', i))
+    # an expanded struct needs a source: a function provider, or a field of another expanded struct - in whatever
+    # order the Struct providers are written (the statement speaks of the declaration, not of its order)
     for i, p in enumerate(provs):
         if p['kind'] == 1:
-            if p['sty'] not in sup or sup[p['sty']][0] != 'P':
-                # a struct type supplied only by another struct's field still has a source
-                if p['sty'] not in sup:
-                    defects.add("orphan")
             for fname, ft in p['fields']:
                 add(ft, ('F', i, fname))
+    for i, p in enumerate(provs):
+        if p['kind'] == 1 and p['sty'] not in sup:
+            defects.add("orphan")
     # reachable cycle
     s2 = suppliers(ret, provs)
     color = {}
